@@ -119,7 +119,13 @@ def verify_function(table, reg, qual, cls, props, timeout_ms=None):
             env[names[0]] = SV(REF(cls), selfc)
             st.assume(selfc > 0)
             st.assume(selfc < eng.A0)
-            st.assume(S.typeof(selfc) == eng.class_id(cls))
+            if c is not None and c.generic_receiver:
+                # an instance of one of the concrete subclasses (the generic base itself is never instantiated)
+                subs = [x for x in eng.table.subclasses(cls) if x != cls] or [cls]
+                st.assume(z3.Or(*[S.typeof(selfc) == eng.class_id(x) for x in subs]))
+                eng.self_class = None
+            else:
+                st.assume(S.typeof(selfc) == eng.class_id(cls))
             names = names[1:]
         elif f.is_classmethod:
             names = names[1:]
